@@ -1,14 +1,11 @@
 (** C11: the two behaviours the repairs removed are NOT lexically valid, shown on the model's transcription of them: Decimal written with str()
     (fixes/C11-1: 1E+2, 1E-7, NaN, -Infinity) and element data written as it is by tostring_unclosed_elements (fixes/C11-3: p&a<ss). *)
-From OfxV Require Import Base.Prelude Base.Digits Gen.ScalarsGen Model.PyDecimal Model.Scalars Model.ScalarsLex Proofs.ScalarsText Proofs.PyDecimalProofs Proofs.ScalarsProofs Proofs.ScalarsLexProofs.
+From OfxV Require Import Base.Prelude Base.Digits Gen.ScalarsGen Model.PyDecimal Model.Scalars Model.ScalarsLex Proofs.ScalarsText Proofs.PyDecimalProofs Proofs.ScalarsProofs Proofs.ScalarsLexProofs Proofs.ScalarsThms.
 Local Open Scope N_scope.
 
 Theorem unrepaired_behaviour_refuted :
   (exists d, lexical_ok (TDecimal None) (to_sci d) = false /\ is_finite d = true) /\
   (exists d, lexical_ok (TDecimal None) (to_sci d) = false /\ is_finite d = false) /\
   (exists s, wire_data_ok (wire_datum_unclosed_unrepaired s) = false).
-Proof.
-  split; [exists (Fin false 1 2); vm_compute; auto|]. split; [exists (NaN false false 0); vm_compute; auto|].
-  exists (T "p&a<ss"). vm_compute. reflexivity.
-Qed.
+Proof. exact unrepaired_behaviour_refuted_l. Qed.
 Print Assumptions unrepaired_behaviour_refuted.
